@@ -415,7 +415,10 @@ where
                     if LAST_PANIC_IN_NODE_CODE.load(std::sync::atomic::Ordering::SeqCst) {
                         vec![(format!("{}|uncaught_panic_in_node_code|site={}", c.id, site), format!("a call into the code under test panicked at {site}: {msg}"))]
                     } else {
-                        panic!("harness panic at {site}: {msg}");
+                        // proptest would turn a panic of this closure into a test failure, i.e. into
+                        // a violation: a harness bug is never a violation - stop, inconclusive
+                        eprintln!("HARNESS-PANIC in check {} at {site}: {msg}", c.id);
+                        std::process::exit(3);
                     }
                 }
             };
